@@ -189,8 +189,10 @@ impl Mutable for Name {
 impl Union<Name> for Name {
     fn union(&self, name: &Name) -> Self {
         let names: HashSet<TrueName> = self.names.union(&name.names).cloned().collect();
+        // None, or a nullable member, makes the union as a whole nullable, however it was formed
+        let any_null = |name: &TrueName| name.is_null() || name.is_nullable();
         Name {
-            names: if names.iter().any(TrueName::is_null) && names.len() > 1 {
+            names: if names.iter().any(any_null) && names.len() > 1 {
                 names
                     .iter()
                     .filter(|n| !n.is_null())
